@@ -913,6 +913,11 @@ class ProcessingPipeline:
 
     def apply(self, rule: SigmaRule | SigmaCorrelationRule) -> SigmaRule | SigmaCorrelationRule:
         """Apply processing pipeline on Sigma rule."""
+        # The items may have been adopted by another pipeline object in the meantime (each
+        # concatenation re-assigns its operands' items to the result). Make sure that they read
+        # and write the state of the pipeline that is applied.
+        self._clear_pipeline()
+        self.set_pipeline()
         self.applied = list()
         self.applied_ids = set()
         self.field_name_applied_ids = defaultdict(set)
